@@ -308,6 +308,20 @@ def workload():
     g1, g2 = F.gen_func(1), F.gen_func(1)
     next(g1); next(g2); list(g2); list(g1)
     J["gen_func"] += [("yield", 0), ("return", None), ("yield", 0), ("return", None)]  # grouped per frame
+    # delegation, exception exits, escaping recursive closure, dict arguments, *args + keyword-only
+    list(F.gen_delegating(2)); J["gen_delegating"] = [("yield", 2), ("yield", "w"), ("yield", "w"), ("return", 2.5)]
+    J["gen_words"] = [("yield", "w"), ("yield", "w"), ("return", None)]
+    F.caught_inside(1); J["caught_inside"] = [("return", "caught")]; J["raises"] += [("exception",)]
+    gr = F.gen_raising(3)
+    try:
+        list(gr)
+    except KeyError:
+        pass
+    J["gen_raising"] = [("yield", 3), ("exception",)]
+    F.make_recursive()(1); J["rec"] = [("return", 0), ("return", 0)]; J["make_recursive"] = [("return",)]
+    F.takes_dict({"a": 1, "b": "s"}, 2, flag=True, z=1); J["takes_dict"] = [("return", [{"a": 1, "b": "s"}])]
+    F.star_then_kwonly(1, "x", "y", sep=None); J["star_then_kwonly"] = [("return", None)]
+    asyncio.run(F.coro_awaiting(4)); J["coro_awaiting"] = [("return", [4])]
 
 
 _RECORDED = None
@@ -330,6 +344,89 @@ def validate_environment():
     problems = validate_contract(evs, JOURNAL)
     return {"environment_contract_events_validated": len(evs), "environment_contract_problems": problems,
             "inconclusive": ("environment contract disagrees with the live interpreter: " + "; ".join(problems[:3])) if problems else None}
+
+
+# ---------------------------------------------------------------- recorded real run through the real tracer
+def _distinct_codes(evs):
+    seen, out = set(), []
+    for e in evs:
+        if id(e.code) not in seen:
+            seen.add(id(e.code))
+            out.append(e.code)
+    return out
+
+
+def _expected_log(evs, admit, k):
+    """Reference: one entry per finished call of an admitted code object, in completion order."""
+    state, out = {}, []
+    for e in evs:
+        if not admit(e.code):
+            continue
+        if e.event == "call":
+            if e.frame_id not in state:
+                names = e.code.co_varnames[: e.code.co_argcount + e.code.co_kwonlyargcount]
+                state[e.frame_id] = ({n: e.locals[n] for n in names if n in e.locals}, [])
+            continue
+        entry, yields = state[e.frame_id]
+        kind = classify_exit(e.op, bool(e.code.co_flags & CO_COROUTINE))
+        if kind == "yield":
+            yields.append(e.arg)
+        elif kind == "await":
+            pass
+        else:
+            out.append((e.code, entry, kind == "return", e.arg, list(yields)))
+            del state[e.frame_id]
+    return out, state
+
+
+def realrun_body(t, k):
+    """The whole fixture workload, as recorded from the running interpreter (real code objects, real
+    f_lasti, real values), is fed event by event to the real CallTracer; the log must be exactly the
+    finished calls, each once, in completion order, with faithful types."""
+    ASSUME(k >= 0)
+    evs = recorded_events()
+    codes = _distinct_codes(evs)
+    sel = t.take(len(codes) + 1)  # the code filter admits one code object, or (last alternative) everything
+
+    def admit(code):
+        return sel == len(codes) or code is codes[sel]
+
+    logger = ListLogger()
+    tracer = CallTracer(logger, k, admit, None)
+    proxies = {}
+    for e in evs:
+        fr = proxies.get(e.frame_id)
+        if fr is None:
+            back = None
+            for locs in reversed(e.back_locals):
+                back = FakeFrame(None, locs, {}, back)
+            fr = proxies[e.frame_id] = FakeFrame(e.code, {}, e.globals, back)
+        fr.f_locals, fr.f_lasti = e.locals, e.lasti
+        if tracer(fr, e.event, e.arg) is not tracer:
+            return check(False, "__call__ did not return the tracer")
+    expected, unfinished = _expected_log(evs, admit, k)
+    got = list(logger.traces)
+    gi = 0
+    for code, entry, ret_present, ret_value, yields in expected:
+        optional = code.co_name in UNRESOLVABLE_OK
+        tr = got[gi] if gi < len(got) else None
+        if tr is None or getattr(tr.func, "__code__", None) is not code:
+            if optional:
+                continue
+            return check(False, lambda: f"finished call of {code.co_qualname} (completion #{gi}) is not in the log at its place; "
+                                        f"logged there: {tr.func.__qualname__ if tr is not None else 'nothing'}")
+        truth = _truth_function(code)
+        r = _same_trace(tr, truth if truth is not None else tr.func, entry, ret_present, ret_value, yields, k)
+        if r:
+            return check(False, lambda: f"trace of {code.co_qualname}: {r}")
+        gi += 1
+    if gi != len(got):
+        return check(False, lambda: f"{len(got) - gi} extra trace(s) logged, first: {got[gi].func.__qualname__}")
+    left = [f for f in tracer.traces if all(f is not proxies[fid] for fid in unfinished)]
+    return check(not left and not getattr(tracer, "unsampled", None), "per-call state left in the tracer after every call finished")
+
+
+tape_harness("realrun", [("t", 1)], {"k": "int"}, realrun_body, globals())
 
 
 def _truth_function(code):
